@@ -19,10 +19,17 @@
    [equeue]/[estep] (C13/EncQueueModel.v) is the mpt++ class encode_queue without an
    encoder function (mpt++/queue.cpp: push = raw append of what fits, trim); its
    specification [esq]/[esstep] (C13/EncQueueSpec.v, 30 lines) is a deque split into a
-   finished and an unfinished part. *)
+   finished and an unfinished part.
+   [dqueue]/[dstep] (C13/DecQueueModel.v) is a decode_queue without a decoder function: the
+   raw branches of mpt_queue_recv / mpt_queue_peek, mpt_queue_shift, decode_queue::advance
+   and current_message (over mpt_message_get / mpt_message_read), mixed with the C queue
+   operations on the embedded ring ([DQ]); its specification [dsq]/[dsstep]
+   (C13/DecQueueSpec.v) is the byte deque plus the five counters of the decoder state, reads
+   are [slice]s of the content, consuming is [skipn]. *)
 From MptV Require Import Base.Mem C13.QueueModel C13.QueueSpec C13.QueueProofs
   C13.QueueAlign C13.QueueFind C13.IoQueueProofs C13.QueueRefine
-  C13.EncQueueModel C13.EncQueueSpec C13.EncQueueRefine.
+  C13.EncQueueModel C13.EncQueueSpec C13.EncQueueRefine
+  C13.DecQueueModel C13.DecQueueSpec C13.DecQueueRefine.
 
 (* One operation, any capacity, any start offset, any fill, wrapped or not:
    the model does not fault (no access outside the storage), keeps the invariant,
@@ -85,6 +92,64 @@ Theorem C13_enc_finished_stable :
     exists rest, sfin (eabs (fst (estep e o))) = sfin (eabs e) ++ rest.
 Proof. exact finished_stable. Qed.
 
+(* Raw decode_queue: one operation (recv, peek, shift, advance, current_message, any C queue
+   operation on the embedded ring, or installing any decoder state), any ring state, any
+   counters: no fault (no read outside the storage), the ring invariant is kept, and output,
+   bytes, capacity and counters are those of the deque-with-counters specification. *)
+Theorem C13_dec_step_refines :
+  forall d o, dinv d ->
+    let '(d', out) := dstep d o in
+    out <> OFault /\ dinv d' /\
+    dsstep (dabs d) o (accepted out) (err_of out) (len_of out) = (dabs d', out).
+Proof. exact dstep_refines. Qed.
+
+Theorem C13_dec_history_refines :
+  forall ops d, dinv d ->
+    drun d ops = dsrun d (dabs d) ops /\
+    Forall (fun r => fst (fst (fst r)) <> OFault) (drun d ops).
+Proof. exact drun_refines. Qed.
+
+(* What mpt_queue_peek copies out is the content from the announced offset on (behind the
+   delivered message, else from the window start), at most [max] bytes, nothing else. *)
+Theorem C13_dec_peek_exact :
+  forall d max b d', dinv d -> dstep d (DPeek max true) = (d', OBytes b) ->
+    let off := dpos d + match dmsg d with Some m => m | None => 0 end in
+    d' = d /\ off <= qlen (dring d) /\ b = firstn max (skipn off (contents (dring d))).
+Proof. exact dec_peek_exact. Qed.
+
+(* A message handed out by current_message is exactly the window (pos, msg) of the content and
+   lies inside it; one that lies inside is always handed out when room for the second part
+   is supplied. *)
+Theorem C13_dec_current_exact :
+  forall d h b d', dinv d -> dstep d (DCurrent h) = (d', OBytes b) ->
+    exists m, dmsg d = Some m /\ d' = d /\ dpos d + m <= qlen (dring d) /\
+              b = slice (dpos d) m (contents (dring d)).
+Proof. exact dec_current_exact. Qed.
+
+Theorem C13_dec_current_complete :
+  forall d m, dinv d -> dmsg d = Some m -> dpos d + m <= qlen (dring d) ->
+    dstep d (DCurrent true) = (d, OBytes (slice (dpos d) m (contents (dring d)))).
+Proof. exact dec_current_complete. Qed.
+
+(* The decode layer never alters stored bytes: recv / peek / shift / advance / current_message
+   leave the capacity alone and at most drop [k <= curr] consumed bytes at the front. *)
+Theorem C13_dec_only_consumes :
+  forall d o, dinv d -> is_dq o = false ->
+    exists k, k <= dcurr d /\
+      contents (dring (fst (dstep d o))) = skipn k (contents (dring d)) /\
+      qmax (dring (fst (dstep d o))) = qmax (dring d).
+Proof. exact dec_only_consumes. Qed.
+
+(* Finding, stated as a theorem about the code as it is: a decode_queue without decoder that
+   starts as constructed (no message, nothing consumed) never offers a message and never
+   consumes a byte, whatever data arrives and however often recv / advance are called - the
+   comment of mpt_queue_recv ("use current available data as message") does not hold. *)
+Theorem C13_dec_raw_never_offers :
+  forall ops d, dmsg d = None -> dcurr d = 0 ->
+    forallb (fun o => negb (is_dset o)) ops = true ->
+    Forall (fun r : dobs => let '(_, _, _, (cu, _, _, mg)) := r in cu = 0 /\ mg = None) (drun d ops).
+Proof. exact raw_never_offers. Qed.
+
 (* ---- non-vacuity: a wrapped, partly filled queue meets the hypotheses and the
    statements say something about it ---- *)
 Example C13_inv_wrapped : qinv (mkq [3;4;238;238;238;238;1;2]%N 4 8 6).
@@ -129,6 +194,44 @@ Example C13_enc_history_example :
      ([3;7;8;9;10;11], 6%nat, 0%nat)]%N.
 Proof. vm_compute. reflexivity. Qed.
 
+Example C13_dec_inv_wrapped : dinv (mkdq (mkq [3;4;238;238;238;238;1;2]%N 4 8 6) 0 0 0 None false).
+Proof. unfold dinv, qinv; cbn; lia. Qed.
+
+(* fresh raw queue on wrapped content: recv moves the window over the four bytes, never a message;
+   peek shows the window across the wrap; new data becomes the next window *)
+Example C13_dec_history_example :
+  map (fun r => (fst (fst (fst r)), snd r))
+      (drun (mkdq (mkq [3;4;238;238;238;238;1;2]%N 4 8 6) 0 0 0 None false)
+            [DRecv; DPeek 3%nat true; DCurrent true; DQ (OpPush [5;6]%N); DAdvance; DPeek 9%nat true; DPeek 0%nat false])
+  = [(OCount 0%nat [], (0, 0, 4, None)); (OBytes [1;2;3]%N, (0, 0, 4, None));
+     (ORefused MissingData, (0, 0, 4, None)); (ODone, (0, 0, 4, None));
+     (ODone, (0, 4, 2, None)); (OBytes [5;6]%N, (0, 4, 2, None)); (OCount 2%nat [], (0, 4, 2, None))]%nat.
+Proof. vm_compute. reflexivity. Qed.
+
+(* consumed input in front of a delivered message that straddles the wrap: current_message reads
+   it with and (refused) without room for the second part; advance drops the consumed bytes *)
+Example C13_dec_message_example :
+  map (fun r => (fst (fst (fst r)), snd (fst (fst r)), snd r))
+      (drun (mkdq (mkq [3;4;238;238;238;238;1;2]%N 4 8 6) 0 0 0 None false)
+            [DSet 1 1 0 (Some 2%nat) false; DCurrent true; DCurrent false; DAdvance; DCurrent true])
+  = [(ODone, [1;2;3;4]%N, (1, 1, 0, Some 2)); (OBytes [2;3]%N, [1;2;3;4]%N, (1, 1, 0, Some 2));
+     (ORefused EInval, [1;2;3;4]%N, (1, 1, 0, Some 2)); (ODone, [2;3;4]%N, (0, 2, 1, Some 0));
+     (OBytes []%N, [2;3;4]%N, (0, 2, 1, Some 0))]%nat.
+Proof. vm_compute. reflexivity. Qed.
+
+(* anomaly of the raw branch kept on record (code as it is): with a delivered message the window
+   that becomes the next message is counted twice, so the third recv reports a message (1) at
+   (pos 4, length 4) of a 4-byte content; every read of it is refused, nothing outside is read *)
+Example C13_dec_offer_outside_content :
+  map (fun r => (fst (fst (fst r)), snd r))
+      (drun (mkdq (mkq [3;4;238;238;238;238;1;2]%N 4 8 6) 0 0 0 None false)
+            [DSet 0 0 0 (Some 0%nat) false; DRecv; DRecv; DCurrent true; DRecv; DCurrent true; DPeek 1%nat true; DRecv])
+  = [(ODone, (0, 0, 0, Some 0)); (OCount 1%nat [], (0, 0, 4, Some 0)); (OCount 1%nat [], (0, 0, 4, Some 4));
+     (OBytes [1;2;3;4]%N, (0, 0, 4, Some 4)); (OCount 1%nat [], (0, 4, 0, Some 4));
+     (ORefused ERange, (0, 4, 0, Some 4)); (ORefused MissingData, (0, 4, 0, Some 4));
+     (ORefused BadEncoding, (0, 4, 0, Some 4))]%nat.
+Proof. vm_compute. reflexivity. Qed.
+
 Print Assumptions C13_step_refines_deque.
 Print Assumptions C13_history_refines_deque.
 Print Assumptions C13_refused_leaves_content.
@@ -137,3 +240,10 @@ Print Assumptions C13_io_write_complete.
 Print Assumptions C13_enc_step_refines.
 Print Assumptions C13_enc_history_refines.
 Print Assumptions C13_enc_finished_stable.
+Print Assumptions C13_dec_step_refines.
+Print Assumptions C13_dec_history_refines.
+Print Assumptions C13_dec_peek_exact.
+Print Assumptions C13_dec_current_exact.
+Print Assumptions C13_dec_current_complete.
+Print Assumptions C13_dec_only_consumes.
+Print Assumptions C13_dec_raw_never_offers.
